@@ -763,6 +763,8 @@ def den_class(prog):
             for tg, g in (t.get(f) or []):
                 if tg in ('fail', 'succeed', 'pause'):
                     return False
+                if g == 'R':
+                    return False   # a failing expression force-fails the workflow at once: it races the other branches
     return True
 
 
@@ -773,7 +775,7 @@ def schedule_independence(ctx, n_programs, n_schedules, suite='schedule_independ
     jobs = []
     progs = []
     while len(progs) < n_programs:
-        p = gen_program(rng, max_tasks=6, allow_cycles=False, allow_cmds=False, join_kinds=('all',))
+        p = gen_program(rng, max_tasks=6, allow_cycles=False, allow_cmds=False, allow_raise=False, join_kinds=('all',))
         if den_class(p):
             progs.append(p)
     for pi, p in enumerate(progs):
